@@ -588,6 +588,9 @@ func (g *Gen) chanName(fr *Frame, v ssa.Value) string {
 					return su.Field(a.Field).Name()
 				}
 			}
+		case *ssa.IndexAddr:
+			// an element of a slice / array of channels is named after the slice: pipes[idx] -> "pipes"
+			return g.chanName(fr, a.X)
 		}
 	case *ssa.FreeVar:
 		return x.Name()
